@@ -282,7 +282,7 @@ extern "C" void vp_main() {
       // arbitration won in this step: entry into the active relation of C02_step.cpp
       for (int i = 0; i < CAP; i++) r.M[i] = M0[i];
       vp_assert("won-arbitration-enters-the-active-relation", won && r.own && relatedActive(h, r, req0) && senderInv(r));
-#if ARM == 2
+#if ARM == 2 && HGROUP == 2
       vp_cover("arbitration-won");
 #endif
     } else {
